@@ -589,3 +589,30 @@ Qed.
 Corollary C13_interleaving sched :
   drive2 conn0 conn0 sched = (drive (chunks_of false sched), drive (chunks_of true sched)).
 Proof. unfold drive. rewrite !drive_from_feed_all. apply drive2_independent. Qed.
+
+(* ------------------------------------------------------------ a frame is read from its own bytes *)
+Lemma magic_prefix_app f rest : (2 <= length f)%nat -> magic_prefix_ok (f ++ rest) = magic_prefix_ok f.
+Proof. destruct f as [|a [|b f]]; cbn; intros; try lia; reflexivity. Qed.
+
+(* whatever follows a complete frame in the buffer (the next frames, garbage, nothing):
+   the message read, body included, and the consumed length are those of the frame alone *)
+Theorem frame_bytes_only f rest :
+  complete_frame f = true -> len f = unbe (sub f 3 7) ->
+  frame_read (f ++ rest) = frame_read f.
+Proof.
+  unfold complete_frame. intros H Hlen.
+  repeat (apply andb_true_iff in H as [H ?]).
+  assert (H16 : 16 <= len f) by lia.
+  assert (Hl2 : (2 <= length f)%nat) by (unfold len in H16; lia).
+  unfold frame_read.
+  rewrite len_app.
+  replace (len f + len rest <? 16) with false by (symmetry; apply N.ltb_ge; lia).
+  replace (len f <? 16) with false by (symmetry; apply N.ltb_ge; lia).
+  rewrite magic_prefix_app by exact Hl2.
+  rewrite !(sub_in_prefix f rest) by lia.
+  destruct (negb (magic_prefix_ok f)); [reflexivity|].
+  destruct ((unbe (sub f 7 9) <? 16) || (unbe (sub f 3 7) <? unbe (sub f 7 9))); [reflexivity|].
+  replace (len f + len rest <? unbe (sub f 3 7)) with false by (symmetry; apply N.ltb_ge; lia).
+  replace (len f <? unbe (sub f 3 7)) with false by (symmetry; apply N.ltb_ge; lia).
+  reflexivity.
+Qed.
